@@ -65,6 +65,8 @@ def run_codec_property(v, prop, ops, oracle, rule_extra="", known=None):
             continue                     # scaled twins carry only the observations C03 needs
         if getattr(x, "liar", False) and prop != "C17":
             continue                     # wrongly declared types: outside every other property
+        if getattr(x, "pair_only", False) and prop not in ("C01", "C02", "C04", "C05", "C06", "C07"):
+            continue                     # near-miss partners carry only ser / feed / cross / full / eps / schema
         r = oracle(c, x)
         if (x.cid, "crash") in c.iobs and not r:
             r = "the process aborted while handling bytes produced by serialization: %s" % c.iobs[(x.cid, "crash")]
@@ -423,7 +425,7 @@ def oracle_c12(c, x):
         # an empty SerIter records no block although its reader (the Vec) aligns: take the model's requirement
         nd = max(nd, int(tinfo(c, x).get("need", "1"), 16))
     line = c.iobs.get((x.cid, "place"), "")
-    m = re.match(r"(.*) misaligned=(\d+)$", line)
+    m = re.match(r"(.*) misaligned=(\d+)(?: diffrefs=\d+)?$", line)
     if not m:
         return "no placement observation"
     if nd is None:
@@ -724,6 +726,11 @@ def oracle_c03(c, x):
             if (off, nb) not in blocks:
                 return "a borrowed part (offset %d, %d bytes, %d items) is not one of the zero-copy blocks written by the serializer (%s...)" % (
                     off, nb, cnt, sorted(blocks)[:6])
+    pl = re.search(r" misaligned=(\d+) diffrefs=(\d+)$", c.iobs.get((x.cid, "place"), ""))
+    if pl and int(pl.group(1)):
+        return "from some base address the eps-copy result holds a reference that is misaligned for its element type"
+    if pl and int(pl.group(2)):
+        return "from %s of the 128 base addresses tried, eps-copy deserialization succeeds with borrowed parts at other offsets (or other contents) than from the aligned buffer" % pl.group(2)
     # borrowed, not copied: a sequence of zero-copy items / a string on the eps path must come back as a reference
     want = desertype(c.U, sertype(c.U, x.t))
     if want[0] in ("slice", "str", "ref") and not re.match(r"OK &[STO]", e):
